@@ -515,6 +515,9 @@ pub struct Profile {
     pub w_token: u64,
     pub max_txs_per_block: u64,
     pub p_empty_block: u64, // out of 100
+    /// a block in which the EVM refuses every transaction (allowance below the intrinsic cost): it lists
+    /// transactions, all failed, and has used no gas (out of 100)
+    pub p_refused_block: u64,
     pub p_b64: u64,         // out of 100
     pub p_zero_hash: u64,   // out of 100
     pub p_future_nonce: u64,
@@ -543,6 +546,7 @@ impl Default for Profile {
             w_token: 1,
             max_txs_per_block: 5,
             p_empty_block: 20,
+            p_refused_block: 4,
             p_b64: 15,
             p_zero_hash: 20,
             p_future_nonce: 30,
@@ -580,6 +584,9 @@ pub struct World {
     /// signers (by index) that have a transaction waiting for a predecessor
     pub owed: Vec<(usize, u64)>,
     pub blocks_made: u64,
+    /// the last call the EVM refused (sender, target, data): a refused transaction does not use up its
+    /// nonce, so the identical call sent again later is the same transaction once more
+    pub last_refused: Option<(String, String, Vec<u8>)>,
 }
 
 impl World {
@@ -613,6 +620,7 @@ impl World {
             base: 0,
             owed: Vec::new(),
             blocks_made: 0,
+            last_refused: None,
         }
     }
 
@@ -1022,6 +1030,27 @@ impl World {
                 let (ts, hash) = self.block_ctx(d);
                 d.exec(Op::Finalise { ts, hash, count: 0 });
             }
+            return;
+        }
+        if !self.tools.is_empty() && self.rng.chance(self.profile.p_refused_block, 100) {
+            let blk = self.block_ctx(d);
+            // a sender of its own, so that nothing else moves its nonce between the attempts
+            let refuse_pk = format!("5120{:056x}{:08x}", self.tag as u128, 0x4ef0_5edu32);
+            for k in 0..self.rng.range(1, 3) {
+                let (pk, tool, data) = match (&self.last_refused, k) {
+                    // the retry of an earlier refused call: byte for byte the same transaction
+                    (Some(l), 0) if self.rng.chance(1, 2) => l.clone(),
+                    _ => (if self.rng.chance(1, 2) { refuse_pk.clone() } else { self.rng.pick(&self.pks.clone()).clone() }, self.rng.pick(&self.tools.clone()).clone(), self.tool_calldata()),
+                };
+                let ctx = Ctx { ts: blk.0, hash: blk.1.clone(), idx: d.ntx };
+                let len = self.rng.below(2);
+                if pk == refuse_pk {
+                    self.last_refused = Some((pk.clone(), tool.clone(), data.clone()));
+                }
+                d.exec(Op::Call { pk, target: Target::Addr(tool), data: Some(hx(&data)), enc: self.enc(), ctx, iid: self.iid(), len, txid: self.txid() });
+            }
+            let blk = d.open.clone().unwrap_or(blk);
+            d.exec(Op::Finalise { ts: blk.0, hash: blk.1, count: d.ntx });
             return;
         }
         let blk = self.block_ctx(d);
